@@ -77,7 +77,7 @@ func cmdC07(r *RNG, n int, e *Emitter, args []string) {
 		fr := clip.FillRule(r.Intn(4))
 		q := func(p clip.PathsD) clip.Paths64 { return clip.ScalePathsDToPaths64(p, scale) }
 		u := func(p clip.Paths64) clip.PathsD { return clip.ScalePaths64ToPathsD(p, inv) }
-		delta := []float64{1.5, -1.5, 3, 0.4, 10}[r.Intn(5)] / math.Pow(10, float64(gp))
+		delta := []float64{1.5, -1.5, 3, 0.4, 10, 0, 0, 0.1, -0.25}[r.Intn(9)] / math.Pow(10, float64(gp))
 		arct := []float64{0, 0.25, 1}[r.Intn(3)] / math.Pow(10, float64(gp))
 		jt := clip.JoinType(r.Intn(4))
 		et := clip.EndType(r.Intn(5))
